@@ -58,6 +58,7 @@ import DDProps.C16Text
 import DDProps.C17
 import DDProps.C17Load
 import DDProps.C17Load2
+import DDProps.C17Load2Sched
 import DDProps.C17Reorder
 import DDProps.C18
 import DDProps.C19
